@@ -177,6 +177,21 @@ fn drain_exact<T: EncItem, I: ExactSizeIterator<Item = (Entity, T)>>(mut it: I, 
     (first, n)
 }
 
+/// is the marker trait hecs::QueryShared implemented for Q?  (inherent method when the bound holds, trait
+/// method otherwise: resolved at compile time, so this compiles whichever way hecs decides)
+pub struct SharedProbe<Q>(pub std::marker::PhantomData<Q>);
+impl<Q: hecs::QueryShared> SharedProbe<Q> {
+    pub fn is_shared(&self) -> bool {
+        true
+    }
+}
+pub trait NotSharedFallback {
+    fn is_shared(&self) -> bool {
+        false
+    }
+}
+impl<Q> NotSharedFallback for SharedProbe<Q> {}
+
 pub struct PathV<'a> {
     pub world: &'a mut World,
     pub path: u64,
@@ -199,6 +214,15 @@ impl QVisitor for PathV<'_> {
         Q::ast(&mut mine);
         if mine != self.ast {
             self.flags.push(format!("harness: query catalogue entry {} has AST {:?}, the case says {:?}", self.qidx, mine, self.ast));
+        }
+        // View::get(&self) hands out items through a shared view: it is only sound for queries without unique access,
+        // which is what the marker trait QueryShared stands for
+        {
+            let marker = crate::gen_queries::shared_marker(self.qidx).unwrap_or(false);
+            let want = crate::gen_queries::SHARED[self.qidx as usize];
+            if want >= 0 && marker != (want == 1) {
+                self.flags.push(format!("C05/C08: QueryShared is {} for catalogue query {} but it must be {}", marker, self.qidx, want == 1));
+            }
         }
         let w = self.world;
         match self.path {
